@@ -330,7 +330,8 @@ def explore(run: T.Callable[[T.Tuple[int, ...], T.Tuple[T.Tuple[str, ...], ...]]
             bound: T.Optional[int], max_runs: T.Optional[int] = None) -> T.Iterator[T.Tuple[Run, int]]:
     """Yield (Run, new_points) for every execution whose number of non-default choices is <= bound.
     Breadth-first over the number of deviations (simplest schedule first).  new_points = choice points of this
-    execution that no earlier execution has visited (its own suffix beyond the replayed prefix, + the root)."""
+    execution (= nodes of the schedule tree) that no earlier execution has visited: the node reached by its last
+    recorded deviation and everything after it."""
     queue: T.Deque[T.Tuple[T.Tuple[int, ...], T.Tuple[T.Tuple[str, ...], ...]]] = collections.deque([((), ())])
     n = 0
     while queue:
@@ -338,7 +339,7 @@ def explore(run: T.Callable[[T.Tuple[int, ...], T.Tuple[T.Tuple[str, ...], ...]]
         r = run(prefix, sig)
         n += 1
         k = len(prefix)
-        yield r, len(r.choices) - k + (1 if k == 0 else 0)
+        yield r, len(r.choices) - k + 1
         if max_runs is not None and n >= max_runs:
             return
         devs = sum(1 for c in prefix if c)
